@@ -18,9 +18,16 @@ out = ['# Seeded breaking changes', '',
        '| id | breaks | kind | needs, to manifest | quick checks against it | pinned suite with the change |', '|---|---|---|---|---|---|']
 for r in rows:
     out.append('| ' + ' | '.join(str(x).replace('|', '\\|') for x in r) + ' |')
-out += ['', 'Checks that initially missed a seeded change and what was strengthened:', '',
+out += ['', 'The sub-agents worked in three rounds (14, 12 and 12 changes; from the second round on each agent was told which ideas had been used). Checks that initially missed a',
+        'seeded change, and what was strengthened (every change is caught now; the "quick checks" column above was recorded at confirmation time):', '',
         '* S08 (kore-exists format string): the C19 notation monitor compared fully random argument tuples, which differ everywhere; it now renders a base tuple and, for every definition-relevant position, a variant that differs only there.',
         '* S09 (InstantiationOptimizer drops stray keys): the composer only instantiated keys that occur in the conclusion; 20% of the explicit instantiations now carry a key that does not occur.',
-        '* S15 (e_fresh of ESubst mis-parenthesised): caught by C05 from the start, missed by C01; the stream generator gained a freshness probe (Generalization over theorems whose consequent contains pending substitutions, variable chosen regardless of the judgement).', '']
+        '* S15 (e_fresh of ESubst mis-parenthesised): caught by C05 from the start, missed by C01; the stream generator gained a freshness probe (Generalization over theorems whose consequent contains pending substitutions, variable chosen regardless of the judgement).',
+        '* S17 (Instantiate.__eq__ ignoring differing key sets): C07 only tried modus ponens on unrelated premises; the history generator now plants near-miss axiom pairs (A -> B and A\' with a partial vs fuller notation map, a changed constraint list, a changed symbol).',
+        '* S20 (optimiser slot budget): not reachable with small modules; C02 gained a memory-pressure scenario (120-260 memoisable patterns next to 1-8 axioms) and the oracle "optimisation must not turn an accepted module into a refusal".',
+        '* S25 (current configuration advanced before a late refusal): the E-trace driver stopped at the first refusal; it now goes on delivering events and requires a refused step to leave claims, proofs and current configuration unchanged.',
+        '* S26 (negative polarity slip in SSubst): the mu-positivity probe only crossed the positive arms; it now crosses both polarities of inner metavariable and plug, and leads on (builds a theorem from the mu pattern) even when the reference machine refused it, so that C01 sees it too. R2 instances now use the constrained variables with the allowed polarity.',
+        '* S28 (element substitution under a binder of the substituted variable): caught by C05, missed by C01; the stream generator gained a Quantifier probe (plugs that bind / shadow / mention x0 and x1).',
+        '* S29 / S34 (SSubst freshness slips in the toolkit): generalisation probes in the history generator and in the composer (consequents full of pending substitutions, binders and constrained metavariables; same variable numbers for element and set variables).', '']
 open(os.path.join(VERIF, 'seeded', 'README.md'), 'w').write('\n'.join(out))
 print('\n'.join(out[:12]))
